@@ -125,7 +125,7 @@ int SHA224Reset(SHA224Context *context)
  *
  */
 int SHA224Input(SHA224Context *context, const uint8_t *message_array,
-    unsigned int length)
+    size_t length)
 {
   return SHA256Input(context, message_array, length);
 }
@@ -217,7 +217,7 @@ int SHA256Reset(SHA256Context *context)
  *   sha Error Code.
  */
 int SHA256Input(SHA256Context *context, const uint8_t *message_array,
-    unsigned int length)
+    size_t length)
 {
   if (!length)
     return shaSuccess;
